@@ -575,3 +575,27 @@ def teardown_scoped_to_terminated_groups(chk, ctx):
            where=se.line(hit) if hit is not None else f.where(),
            message="when a nested Parallel/Map is retried (its own group is terminated) the scan also cancels the pending tasks of the *enclosing* fan-out's healthy branches: their "
                    "Task.Terminated marks the outer group terminated, the outer join never completes and the execution never ends")
+
+
+def teardown_after_terminal_notification(chk, ctx):
+    """C03.R11: end_execution releases (acknowledges) the events held for the terminated branches only after every consequence of the
+    terminal event has been issued: the record, the terminal history event, the completion of a waiting parent, the notification"""
+    se = ctx.mod("state_engine")
+    f = se.func("StateEngine.end_execution")
+    g = CFG(f.node)
+    tears = [c for c in body_nodes(f) if isinstance(c, ast.Call) and callname(c) == "self.check_pending_results"]
+    cons = [c for c in body_nodes(f) if isinstance(c, ast.Call) and callname(c) in ("self.broadcast_notification", "self.task_dispatcher.handle_sfn_response", "self.update_execution_history")]
+    chk.floor("C03.R11", len(cons), 3, "consequences of the terminal event in end_execution")
+    for t in tears:
+        tn = g.containing_stmt_node(t, se)
+        late = []
+        for c in cons:
+            cn = g.containing_stmt_node(c, se)
+            if tn is not None and cn is not None and cn != tn and cn in g.reachable_from(tn):
+                late.append(last(callname(c)))
+        chk.ob("C03.R11", "end_execution: the held branch events are released after the terminal consequences", not late, "",
+               key="StateEngine.end_execution | check_pending_results (acknowledges held events) runs before %s" % sorted(set(late)), where=se.line(t),
+               message="the events of finished sibling branches are acknowledged before the terminal notification (and the completion of a waiting parent) has been handed over: "
+                       "a crash in between loses the execution's end although nothing is left to redeliver")
+    if not tears:
+        chk.ob("C03.R11", "end_execution tears the join state down", False, "", key="StateEngine.end_execution | no tear-down", where=f.where(), message="")
